@@ -21,6 +21,17 @@ var tokenAlphabet = []string{
 	`"/a/b"`, `"a b"`, `""`, `"/"`, `"\x41"`, `"\q"`, ".", "-", "~", "/", "=", "!", "notin", "a.b", "-0.50",
 }
 
+// data on which every accepted expression is evaluated by the shape oracle: the identifiers of
+// the token alphabet / path pool resolve to strings, numbers, lists and maps
+var shapeData = []interface{}{
+	nil,
+	map[string]interface{}{"a": "s", "foo": "bar", "x1": "1", "a/b": "s", "b": "s", "k": "v", "x": map[string]interface{}{"key with space": "v", "y": "z"},
+		"m": map[string]interface{}{"co:lon": "c"}, "s": []interface{}{"a", map[string]interface{}{"x": "1"}}, "notes": "n", "é": "e", "0": "zero",
+		"all": "1", "any": "1", "not": "1", "in": map[string]interface{}{"x": "1"}, "r": "r", "X": map[string]interface{}{"Y_z": "1"}},
+	map[string]string{"a": "1", "foo": "s"},
+	[]interface{}{"a", 1},
+}
+
 // shapeOracle checks the C10 contract of CreateEvaluator / CreateFilter / Parse on one input.
 func shapeOracle(o *Out, input string) {
 	var perr error
@@ -74,7 +85,28 @@ func shapeOracle(o *Out, input string) {
 		o.finding(Finding{Property: "C10", Kind: "failing-input", What: "CreateFilter and CreateEvaluator disagree", Request: "parse 0 " + hx(input)})
 	}
 	if ev != nil {
-		// a returned evaluator can be evaluated and its tree dumped without panicking
+		// a returned evaluator can always be evaluated …
+		for _, d := range shapeData {
+			func() {
+				defer func() {
+					if r := recover(); r != nil {
+						o.finding(Finding{Property: "C10", Kind: "failing-input", What: "Evaluate on an accepted expression panicked", Detail: fmt.Sprint(r), Request: "parse 0 " + hx(input)})
+					}
+				}()
+				ev.Evaluate(d)
+			}()
+		}
+		if f != nil {
+			func() {
+				defer func() {
+					if r := recover(); r != nil {
+						o.finding(Finding{Property: "C10", Kind: "failing-input", What: "Execute on an accepted expression panicked", Detail: fmt.Sprint(r), Request: "parse 0 " + hx(input)})
+					}
+				}()
+				f.Execute(shapeData)
+			}()
+		}
+		// … and its tree dumped without panicking
 		func() {
 			defer func() {
 				if r := recover(); r != nil {
@@ -159,7 +191,7 @@ func fragParseTokens(g *Gen, n int, o *Out) {
 }
 
 var pathPool = [][]string{{"a"}, {"foo"}, {"foo", "bar"}, {"a", "0"}, {"a", "b", "c"}, {"x", "key with space"}, {"m", "co:lon"}, {"a/b"}, {"a/b", "c"},
-	{"s", "1", "x"}, {"not"}, {"all"}, {"in", "x"}, {"é"}, {"a", "q\"t"}, {"a", "b`t"}, {"a", ""}, {"0"}, {"a", "~tilde"}, {"a", "sl/ash"}, {"X", "Y_z"}, {"any", "b"}}
+	{"s", "1", "x"}, {"notes"}, {"anything", "allow"}, {"inside"}, {"order", "island"}, {"ashes"}, {"matchesx"}, {"containsx", "emptyx"}, {"note", "android"}, {"not"}, {"all"}, {"in", "x"}, {"é"}, {"a", "q\"t"}, {"a", "b`t"}, {"a", ""}, {"0"}, {"a", "~tilde"}, {"a", "sl/ash"}, {"X", "Y_z"}, {"any", "b"}}
 var rawPool = []string{"1", "0", "-1", "1.5", "foo", "a b", "", "true", "/usr/bin", "/a", "a/b", "x.y", "q\"t", "b`t", "b\\s", "é日本", "new\nline", "tab\t", "\x00", "\xff\xfe",
 	"007", "1e3", "0x10", "not", "in", "`\r`", "a.0", "-", "~", "12.50", "-0", "a\"`b", "/", "//", "/a b", "/é/1", "contains"}
 
@@ -283,7 +315,7 @@ func fragParseBytes(g *Gen, n int, o *Out) {
 		"a == \"\\400\"", "a[\"", "a[", "a[\"x\"", "(", "((", "(a == 1", "a == 1)", "a ==", "== 1", "a == 1 and", "all a as x {", "all a as x { x == 1",
 		"any a as {x == 1}", "a == 1.", "a == 01", "a == -", "a == 1x", "1 in", "1 in 2", "\"/\" == 1", "\"/a~\" == 1", "\"/a~2\" == 1", "\"a\" == 1", "\"\" == 1",
 		"a == \"\xe2\x82\"", "é == 1", "a.é == 1", "\"/é\" == 1", "a\r\n==\r\n1", "a\v== 1", "a == 1\x00", "\xef\xbf\xbd == 1", "\"/\xef\xbf\xbd\" == 1",
-		"a == \"\\ud800\"", "a is  not  empty", "a is notempty", "a isempty", "not", "not not", "not not a == 1", "a == 1 or", "or", "and a == 1"}
+		"a == \"\\ud800\"", "\va == 1", "a == 1\f", "\u00a0a == 1", "a == 1\u00a0", "\u0085a == 1", "a == 1\u2003", "\u3000a == 1\u3000", "\v", "\f", "\u00a0", "\u2003 ", "a is  not  empty", "a is notempty", "a isempty", "not", "not not", "not not a == 1", "a == 1 or", "or", "and a == 1"}
 	for _, s := range seeds {
 		emitParse(o, 0, s)
 		shapeOracle(o, s)
@@ -302,6 +334,16 @@ func fragParseBytes(g *Gen, n int, o *Out) {
 		b := []byte(base)
 		nm := 1 + g.r.Intn(3)
 		for m := 0; m < nm; m++ {
+			if g.r.Intn(12) == 0 {
+				// non-grammar white space at either end
+				pads := []string{"\v", "\f", "\u00a0", "\u0085", "\u2003", "\u3000", "\u1680"}
+				if g.r.Intn(2) == 0 {
+					b = append([]byte(pads[g.r.Intn(len(pads))]), b...)
+				} else {
+					b = append(b, []byte(pads[g.r.Intn(len(pads))])...)
+				}
+				continue
+			}
 			special := []byte{0xff, 0x00, 0xc0, 0x80, 0xe2, '"', '`', '\\', '(', ')', '[', ']', '{', '}', '/', '~', '.', ' ', '\n', 'a', '1', '-', ','}
 			c := special[g.r.Intn(len(special))]
 			if g.r.Intn(4) == 0 {
